@@ -30,4 +30,6 @@ def run(rep, fb, tier):
     _pr2.rule_py_call_signature(rep)
     from ..rules import lints as _lx
     _lx.rule_whole_token(rep, fb)
+    from ..rules import lints as _lz
+    _lz.rule_zero_field_depths(rep, fb)
     rep.units = fb.units
